@@ -680,8 +680,10 @@ class _Exporter:
             typerep = type_annotation.onnx_attr_type_to_onnxscript_repr(type)
             return f"{attr_name}: {typerep}"
 
-        inputs = [self._translate_onnx_var(x) for x in funproto.input]
+        # Attribute parameters are registered first, so that an input with the same
+        # python name is renamed (consistently with its uses in the body).
         attrs = [attr_sig(x) for x in funproto.attribute]
+        inputs = [self._translate_onnx_var(x) for x in funproto.input]
         input_and_attrs = ", ".join(inputs + attrs)  # type: ignore[arg-type]
         if len(funproto.attribute_proto) > 0:
             message = "\n   # Attribute parameters default-values not handled yet."
